@@ -52,6 +52,37 @@ theorem length_shiftL {base : Nat} : ∀ ts, (Term.shiftL base ts).length = ts.l
   | t :: ts => by rw [Term.shiftL]; simp [length_shiftL ts]
 end
 
+/-! ## `spineFollow` keeps meaning and well-formedness -/
+
+theorem den_spineFollow {L : Lang} {ρ : Val} {σ : Store} (h : Sat L ρ σ) (t : Term) :
+    den ρ (spineFollow σ t) = den ρ t := by
+  fun_induction spineFollow σ t with
+  | case1 o l r ho ih =>
+    have hl : den ρ (match l with | .var v => followT σ (.var v) | t => t) = den ρ l := by
+      cases l with
+      | var v => exact den_followT h _
+      | app p args => rfl
+    rw [den_app, den_app, denL_cons, denL_cons, denL_cons, denL_cons, ih]
+    exact congrArg (fun x => Ty.app o [x, den ρ r]) hl
+  | case2 => rfl
+  | case3 v => exact den_followT h _
+  | case4 => rfl
+
+theorem okTerm_spineFollow {L : Lang} {σ : Store} (ok : OkStore L σ) (t : Term)
+    (ht : okTerm L σ t = true) : okTerm L σ (spineFollow σ t) = true := by
+  fun_induction spineFollow σ t with
+  | case1 o l r ho ih =>
+    obtain ⟨h1, h2, h3⟩ := okTerm_app.mp ht
+    obtain ⟨hl, h4⟩ := okTermL_cons.mp h3
+    obtain ⟨hr, h5⟩ := okTermL_cons.mp h4
+    refine okTerm_app.mpr ⟨h1, h2, okTermL_cons.mpr ⟨?_, okTermL_cons.mpr ⟨ih hr, h5⟩⟩⟩
+    cases l with
+    | var v => exact okTerm_followT ok _ hl
+    | app p args => exact hl
+  | case2 => exact ht
+  | case3 v => exact okTerm_followT ok _ ht
+  | case4 => exact ht
+
 theorem instantiate_sound {L : Lang} (wf : WF L) {n : Nat} {σ σ' : Store} {s : Schema} {f : Term}
     (ok : OkStore L σ) (nc : NoConstraints σ) (hc : s.constraints = [])
     (hbody : okTermN L (s.nvars + s.nwild) s.body = true)
@@ -60,14 +91,15 @@ theorem instantiate_sound {L : Lang} (wf : WF L) {n : Nat} {σ σ' : Store} {s :
     (∀ t, okTerm L σ t = true → okTerm L σ' t = true) ∧ okTerm L σ' f = true ∧
     ∀ ρ, Sat L ρ σ' → Sat L ρ σ ∧ den ρ f = den ρ (s.body.shift σ.vars.length) := by
   have e : instantiate L n σ s =
-      fix L n (allocVars σ s.nvars s.nwild) (s.body.shift σ.vars.length) true := by
+      fix L n (allocVars σ s.nvars s.nwild)
+        (spineFollow (allocVars σ s.nvars s.nwild) (s.body.shift σ.vars.length)) true := by
     unfold instantiate
     simp only [hc, addConstraints]
   rw [e] at h
   obtain ⟨s1, hlen⟩ := step_allocVars (L := L) ok nc s.nvars s.nwild
   obtain ⟨h1, h2, h3, _, h5, h6⟩ := fix_sound wf s1.ok s1.nc
-    (okTerm_shift (by rw [hlen]; omega) s.body hbody) h
+    (okTerm_spineFollow s1.ok _ (okTerm_shift (by rw [hlen]; omega) s.body hbody)) h
   refine ⟨h1, h2, by omega, fun t ht => okTerm_mono (Nat.le_trans s1.len h3) t ht, h5, fun ρ hρ => ?_⟩
-  exact ⟨s1.sat ρ (h6 ρ hρ).1, (h6 ρ hρ).2⟩
+  exact ⟨s1.sat ρ (h6 ρ hρ).1, (h6 ρ hρ).2.trans (den_spineFollow (h6 ρ hρ).1 _)⟩
 
 end Tfv.C03P
